@@ -23,7 +23,7 @@ LEVEL = 'exploration'
 TIERS = {"quick": 20000, "thorough": 1500000}
 BUDGET = {'quick': 150, 'thorough': 1500}
 RULE = ('seeded plans, two parts. A: a byte string (valid stream of 1-3 encodings, a corrupted one, or a wide/deep/over-threshold '
-        'container) decoded one-shot and by full StreamingDecoder iteration through 10 substrate kinds with a per-run drop-threshold '
+        'container) decoded one-shot and by full StreamingDecoder iteration through 11 substrate kinds with a per-run drop-threshold '
         'knob; outcome (values, remainder, exception class) compared with the outcome on bytes. B: 5-60 operations '
         '(read/peek/seek-back/set-mark/tell, with short and would-block reads of the raw source) on the real CachingStreamWrapper '
         'against a reference model. non-trivial: (A) at least one non-bytes kind produced a value or an error after reading > 0 '
@@ -37,7 +37,7 @@ REAL = ['pyasn1.codec.streaming (asSeekableStream, CachingStreamWrapper, readFro
         'pyasn1.codec.{ber,cer,der}.decoder', 'CPython io.BytesIO, open(), gzip, zipfile, io.BufferedReader']
 STUB = ['SimPipe / SimFile / RawPipe doubles', 'reference model of a seekable stream (bytes + position + mark)']
 
-KINDS = ['bytesio', 'octetstring', 'any', 'file', 'gzip', 'zip', 'buffered-pipe', 'simpipe', 'simfile', 'wrapped-simpipe']
+KINDS = ['bytesio', 'octetstring', 'any', 'file', 'gzip', 'zip', 'buffered-pipe', 'os-pipe', 'simpipe', 'simfile', 'wrapped-simpipe']
 
 
 # ---------------------------------------------------------------------------
@@ -125,6 +125,16 @@ def open_kind(kind, b):
         return Opened(st)
     if kind == 'buffered-pipe':
         return Opened(io.BufferedReader(RawPipe(b), buffer_size=16))
+    if kind == 'os-pipe':
+        # a real kernel pipe: non-seekable, blocking; everything is written and the write end
+        # closed before the decoder reads, so what the reader sees does not depend on timing
+        if len(b) > 60000:
+            return Opened(io.BufferedReader(RawPipe(b), buffer_size=4096))
+        rfd, wfd = os.pipe()
+        os.write(wfd, b)
+        os.close(wfd)
+        fh = os.fdopen(rfd, 'rb', buffering=0)
+        return Opened(fh, (fh,))
     d = _tmpdir()
     if kind == 'file':
         path = os.path.join(d, 'f.bin')
@@ -186,7 +196,9 @@ def _gen_a(r):
         pl['raw'] = {'kind': 'big', 'size': r.choice([knob - 1, knob, knob + 1, 2 * knob + 3, 3 * knob]),
                      'wrapped': r.random() < 0.6, 'indef': indef, 'count': r.choice([1, 2])}
         if thr is None:
-            pl['raw']['size'] = r.choice([8191, 8192, 8193, 20000])
+            pl['raw']['size'] = r.choice([8191, 8192, 8193, 20000, 32768, 32769, 66000])
+        elif r.random() < 0.15:
+            pl['raw']['size'] = r.choice([32769, 66000])     # large in absolute terms, whatever the knob
     pl['use_spec'] = r.random() < 0.5
     pl['tail'] = r.choice(['', '', '0500', 'ff'])
     return pl
@@ -557,7 +569,7 @@ def shrink_candidates(plan):
 def finding_context(plan, viol):
     d = viol.get('detail', {})
     kind = d.get('kind')
-    nonseek = kind in ('simpipe', 'wrapped-simpipe', 'buffered-pipe')
+    nonseek = kind in ('simpipe', 'wrapped-simpipe', 'buffered-pipe', 'os-pipe')
     stream = bytes.fromhex(d['input_hex']) if d.get('input_hex') and len(d['input_hex']) < 400 else _input_bytes(plan)
     p2 = copy.deepcopy(plan)
     p2['config']['threshold'] = 10 ** 9
